@@ -5,6 +5,7 @@ Monitor shape: reference-model comparator. The harness drives the real conversio
 `update_totals`, `calculate_fee`) and an exact model (integer / `fractions.Fraction` arithmetic on the decimal
 string and an own table of metric prefixes) judges every result. Violations are recorded, never raised.
 """
+import re
 import random
 from fractions import Fraction as F
 
@@ -103,6 +104,30 @@ def dec_fraction(text):
     return -v if neg else v
 
 
+def sci_fraction(text):
+    """Exact value of '<plain decimal>e[+-]<digits>' (independent of the library and of fractions' own parser)."""
+    mant, _, ex = text.replace('E', 'e').partition('e')
+    neg = ex.startswith('-')
+    if ex[:1] in '+-':
+        ex = ex[1:]
+    if not ex.isdigit():
+        raise ValueError('not a scientific spelling: %r' % text)
+    k = int(ex)
+    return dec_fraction(mant) / F(10) ** k if neg else dec_fraction(mant) * F(10) ** k
+
+
+def sci_spelling(num, rnd):
+    """A scientific-notation spelling of the non-negative plain decimal string `num` (same exact value)."""
+    k = rnd.choice([rnd.randrange(-12, 21), rnd.choice([-20, -10, 10, 20, 0, 1, -1, 7, 8, 9, 11])])
+    mant = shift_decimal(num, -k)
+    if rnd.random() < 0.3 and '.' not in mant:
+        mant += '.' + '0' * rnd.randrange(1, 3)
+    elif rnd.random() < 0.2 and '.' in mant:
+        mant += '0' * rnd.randrange(1, 3)
+    sign = '-' if k < 0 else rnd.choice(['', '', '+'])
+    return '%se%s%d' % (mant, sign, abs(k))
+
+
 def exact_units(number_text, sym):
     """Exact number of smallest units (a Fraction) denoted by '<number> <sym><code>'."""
     return dec_fraction(number_text) * F(10) ** (DEN_EXP[sym] - UNIT_EXP)
@@ -168,12 +193,21 @@ def lib_parse(text, network=None):
 def chk_parse(case, col, tally=None):
     """case: {'kind':'parse', 'num': decimal string, 'sym': symbol, 'code': currency code or '', 'network': name or None}"""
     num, sym, code, net = case['num'], case['sym'], case['code'], case.get('network')
-    text = num if not (sym or code) else '%s %s%s' % (num, sym, code)
+    spelled = case.get('spelled') or num       # the number as written (scientific notation of the same decimal when given)
+    text = spelled if not (sym or code) else '%s %s%s' % (spelled, sym, code)
     exact = exact_units(num, sym)
+    if case.get('spelled') and sci_fraction(spelled) != dec_fraction(num):
+        col.note_inconclusive('harness: scientific spelling %r does not denote %r' % (spelled, num))
+        return True
     whole = exact.denominator == 1
     n = int(exact) if whole else None
     cls = 'parse/%s/%s' % ('whole' if whole else 'sub-unit', sym or 'unit')
+    if case.get('spelled'):
+        cls += '/sci'
     ident = ('parse', mag_class(int(exact)), sym, code, case.get('style', ''), bool(net), whole)
+    if case.get('spelled'):
+        m = re.match(r'^[^eE]*[eE]([+-]?)(\d+)$', spelled)
+        ident += ('.' in spelled, m.group(1), m.group(2)[-1] == '0', len(m.group(2)))
     if tally is not None:
         tally.add(cls, ident, case)
     else:
@@ -876,7 +910,11 @@ def gen_parse(rnd, n=None):
     elif r < 0.35 and sym in ('', 'sat'):
         # no currency code in the text: the network argument (or the default network) decides
         return {'kind': 'parse', 'num': num, 'sym': sym, 'code': '', 'network': rnd.choice([None] + list(NETCODES)), 'style': style}
-    return {'kind': 'parse', 'num': num, 'sym': sym, 'code': code, 'network': netarg, 'style': style}
+    case = {'kind': 'parse', 'num': num, 'sym': sym, 'code': code, 'network': netarg, 'style': style}
+    if style in ('min', 'full') and rnd.random() < 0.3:
+        case['spelled'] = sci_spelling(num, rnd)
+        case['style'] = style + '-sci'
+    return case
 
 
 def gen_subunit(rnd):
